@@ -639,6 +639,15 @@ func (o *C08) Finish(w *World) {
 						return
 					}
 				}
+				// in step: batch nonces. The hub has applied every event of the chain; a batch it still offers for signing
+				// and relaying must be one the contract can still take (its nonce above the token's last executed one)
+				for _, b := range st.Batches(ch) {
+					w.St.Check("C08:in-step")
+					if last := e.LastBatchNonce[ext.ParseAddr(b.ExternalTokenId)]; last >= b.BatchNonce {
+						w.Fail("C08", "in-step", ch+":dead-batch-offered", fmt.Sprintf("%s: the hub has applied all of the chain's events and still offers batch %d of token %s, while the contract has already executed batch %d of that token and will reject it for ever", ch, b.BatchNonce, b.ExternalTokenId, last))
+						return
+					}
+				}
 			}
 		}
 	}
